@@ -15,6 +15,7 @@ CONSTANTS
   BaseVals = {%(base)s}
   CallValues = {0, 3}
   Amounts = {1}
+  Codes <- %(codes)s
   MaxDepth = %(maxdepth)d
   MaxTransfers = %(maxtr)d
   Deploys = %(deploys)s
@@ -37,7 +38,7 @@ KIND_OF_INV = {
 
 
 def write(sd, name, **kw):
-    d = dict(scs='"A", "B"', keys='"k1", "k2"', vals="0, 1", base="2", maxdepth=2, maxtr=2, deploys="FALSE", balances="FALSE",
+    d = dict(scs='"A", "B"', keys='"k1", "k2"', vals="0, 1", base="2", maxdepth=2, maxtr=2, deploys="FALSE", balances="FALSE", codes="AllCodes",
              defects="AllOn", log="LogLast", bound=0, spec="Spec", rest="VIEW cvars")
     d.update(kw)
     with open(os.path.join(sd, name), "w") as f:
@@ -117,12 +118,12 @@ def run(ctx):
         if r.coverage_zero:
             ctx.broken.append("vacuity guard: actions never taken in R1a: %s" % sorted(set(r.coverage_zero)))
         ctx.cov(coverage_actions_never_taken=sorted(set(r.coverage_zero)))
-        # deeper bounds (measured: 22.8 M and 23.9 M transitions, 2.5 and 3.5 min with 4 workers)
+        # deeper bounds, codes {Ok, UserError} only: in the model the code never influences the successor (measured: 22.8 M and 23.9 M transitions, 2.5 and 3.5 min with 4 workers)
         write(sd, "r1a2.cfg", defects="NoneOn", deploys="TRUE", log="LogNone", rest="VIEW cvars\n" + ALL_INV,
-              keys='"k1", "k2"', vals="0, 1", maxtr=3, maxdepth=2)
+              keys='"k1", "k2"', vals="0, 1", maxtr=3, maxdepth=2, codes="TwoCodes")
         ctx.tlc(sd, "MC_VmContext", "r1a2.cfg", timeout=3000, heap="12g")
         write(sd, "r1a3.cfg", defects="NoneOn", deploys="TRUE", log="LogNone", rest="VIEW cvars\n" + ALL_INV,
-              keys='"k1"', vals="0, 1", maxtr=4, maxdepth=3)
+              keys='"k1"', vals="0, 1", maxtr=4, maxdepth=3, codes="TwoCodes")
         ctx.tlc(sd, "MC_VmContext", "r1a3.cfg", timeout=3000, heap="12g")
     # ---- R1b: the code as it is: TLC must find the storage leak and the call-value leak by itself
     found = {}
@@ -143,16 +144,28 @@ def run(ctx):
     _stage("R1 model checking")
     exe = ctx.go_build("vh-vmcontext")
     _stage("build")
-    # ---- R2a: every failed-inner-call transition of the abstract state graph, replayed with stub contracts
-    write(sd, "gen.cfg", spec="GenSpec", log="LogAppend", defects="AllOn", deploys="TRUE", keys='"k1"', vals="1",
-          maxtr=3, maxdepth=2, bound=6 if q else 7, rest="VIEW cvars\nACTION_CONSTRAINT EmitFailEdge")
-    beh = ctx.path("edges.ndjson")
-    g = ctx.tlc(sd, "MC_VmContext", "gen.cfg", timeout=1500, behaviours_out=beh, count=False)
-    if g.ok and g.behaviours == 0:
-        ctx.broken.append("behaviour export produced nothing")
-    h = ctx.vh(exe, ["replay", beh], timeout=1500)
-    tot = dict(b=int(h.stats.get("behaviours", 0)), s=int(h.stats.get("steps", 0)), d=int(h.stats.get("distinct", 0)),
-               f=int(h.stats.get("failed_inner_calls", 0)), dr=int(h.stats.get("drifts", 0)))
+    # ---- R2a: every failed-inner-call transition of the abstract state graph, replayed with stub contracts.
+    #      The failure CODE returned by the scripted callee is chosen by TLC: pass A replays every failing transition
+    #      with one code that rotates over all twelve non-Ok vmcommon codes with the state, pass B replays every
+    #      failing transition of the shallower graph with EACH of the twelve codes.
+    tot = dict(b=0, s=0, d=0, f=0, dr=0)
+    sigs, codes_seen = set(), {}
+    passes = [("genA.cfg", dict(spec="GenSpecRot", bound=6 if q else 7)),
+              ("genB.cfg", dict(spec="GenSpec", bound=4 if q else 5))]
+    for name, kw in passes:
+        write(sd, name, log="LogAppend", defects="AllOn", deploys="TRUE", keys='"k1"', vals="1", maxtr=3, maxdepth=2,
+              rest="VIEW cvars\nACTION_CONSTRAINT EmitFailEdge", **kw)
+        beh = ctx.path(name + ".ndjson")
+        g = ctx.tlc(sd, "MC_VmContext", name, timeout=1500, behaviours_out=beh, count=False)
+        if g.ok and g.behaviours == 0:
+            ctx.broken.append("behaviour export %s produced nothing" % name)
+        h = ctx.vh(exe, ["replay", beh], timeout=1500)
+        for k, n in (("b", "behaviours"), ("s", "steps"), ("d", "distinct"), ("f", "failed_inner_calls"), ("dr", "drifts")):
+            tot[k] += int(h.stats.get(n, 0))
+        sigs |= set(h.stats.get("signatures", []))
+        for c in h.stats.get("failure_codes", []):
+            nm, _, cnt = c.rpartition(" x")
+            codes_seen[nm] = codes_seen.get(nm, 0) + int(cnt)
     _stage("R2a edges gen+replay")
     # ---- R2b: long random behaviours (3 nested activations, 2 keys, deletes, all base values)
     write(sd, "sim.cfg", spec="GenSpec", log="LogAppend", defects="AllOn", deploys="TRUE", balances="TRUE", base="0, 2", maxtr=6,
@@ -163,11 +176,15 @@ def run(ctx):
     h2 = ctx.vh(exe, ["replay", beh2], timeout=1500)
     for k, n in (("b", "behaviours"), ("s", "steps"), ("d", "distinct"), ("f", "failed_inner_calls"), ("dr", "drifts")):
         tot[k] += int(h2.stats.get(n, 0))
+    sigs |= set(h2.stats.get("signatures", []))
+    for c in h2.stats.get("failure_codes", []):
+        nm, _, cnt = c.rpartition(" x")
+        codes_seen[nm] = codes_seen.get(nm, 0) + int(cnt)
     ctx.cov(traces_validated_against_impl=tot["b"], evaluations=tot["s"], distinct_nontrivial=tot["d"],
             failed_inner_calls_checked=tot["f"], replay_drift_steps=tot["dr"])
-    sigs = sorted(set(h.stats.get("signatures", []) + h2.stats.get("signatures", [])))
-    ctx.cov(replay_signature_counts=sigs)
-
+    ctx.cov(replay_signature_counts=sorted(sigs), failure_codes_replayed=codes_seen)
+    if len(codes_seen) < 12:
+        ctx.broken.append("only %d of the 12 failure codes were exercised by the replay: %s" % (len(codes_seen), sorted(codes_seen)))
     _stage("R2b simulation gen+replay")
     # ---- R3: traces recorded from the real vmContext through the recording EEI decorator, validated by TLC
     if os.path.exists(os.path.join(sd, "Trace_VmContext.tla")):
